@@ -534,6 +534,14 @@ func (e *Exec) loopEnv(st *State, fr *Frame, phis []*ssa.Phi, vals []Val) *SpecE
 			}
 		}
 	}
+	// loop-carried variables of enclosing loops (their phi nodes are ordinary values here)
+	for v, val := range fr.Env {
+		if ph, ok := v.(*ssa.Phi); ok && ph.Comment != "" && val != nil {
+			if _, have := env.vars[ph.Comment]; !have {
+				env.vars[ph.Comment] = sv{V: val, T: ph.Type()}
+			}
+		}
+	}
 	for k, ph := range phis {
 		if ph.Comment != "" {
 			env.vars[ph.Comment] = sv{V: vals[k], T: ph.Type()}
